@@ -253,8 +253,15 @@ func runHostile(t fatalTB, connack []byte, stream []byte, hs hostileSetup) (labe
 		w.Script = []string{fmt.Sprintf("setup %+v", hs), fmt.Sprintf("connack % x", connack), fmt.Sprintf("stream (%d bytes) % x", len(stream), head(stream, 200))}
 		w.Failf(format, args...)
 	}
+	// await waits for the running ReadSlices; step starts one first. (After
+	// an expiry was delivered to a waiting call it is await, not step: the
+	// call may have returned already and a step would begin the next one.)
+	var await func(what string) sim.AppResult
 	step := func(what string) sim.AppResult {
 		w.App.Step()
+		return await(what)
+	}
+	await = func(what string) sim.AppResult {
 		w.MustPoll("ReadSlices returning or waiting for input: "+what, func() bool {
 			return !w.App.InCall() || w.ReaderWaiting()
 		})
@@ -288,7 +295,7 @@ func runHostile(t fatalTB, connack []byte, stream []byte, hs hostileSetup) (labe
 			if !w.ExpireStalledRead() {
 				fail("the handshake waits for input without a deadline")
 			}
-			r = step("handshake expiry")
+			r = await("handshake expiry")
 			if w.App.InCall() {
 				fail("ReadSlices still waits after the handshake deadline passed")
 			}
@@ -316,7 +323,7 @@ func runHostile(t fatalTB, connack []byte, stream []byte, hs hostileSetup) (labe
 	// --- healthy preamble: transfers at each stage ---
 	step("connect")
 	c := w.Current()
-	if c == nil || !c.State.Accepted {
+	if c == nil || !c.Accepted() {
 		fail("VERIF-INFRA: no connection in the preamble")
 	}
 	st := &hostileState{subs: map[uint16]int{}, unsubs: map[uint16]bool{}, readBuf: hs.ReadBuf}
@@ -502,7 +509,7 @@ func runHostile(t fatalTB, connack []byte, stream []byte, hs hostileSetup) (labe
 				if !w.ExpireStalledRead() {
 					fail("the stream ends inside a packet (%s) and the read routine waits without a read deadline", exps[len(exps)-1].why)
 				}
-				r = step("expiry inside a packet")
+				r = await("expiry inside a packet")
 				if !w.App.InCall() {
 					break
 				}
